@@ -9,8 +9,25 @@ Props/C11 stepCheck_drift / accepts_drift prove that B is accepted iff the undri
 accepted without predictor), and the partitions are compared (equal when every step of A has a
 unique optimum, equal cost otherwise).  NullPredict().link_df_iter is compared with link_df_iter
 (Props/C11 null_predictor_eq).
+
+Stream `stateful` (third clause: labels produced with ANY predictor remain unique per frame): the
+movie (plain / uniformly drifting / sheared variant of the C01 stream) is linked with trackpy's own
+stateful predictors NearestVelocityPredict, DriftPredict, ChannelPredict (through their
+link_df_iter / wrap / link_df), each wrapped in a thin recording subclass that notes, at every call
+of `predict`, the points it was asked about and the positions it returned.  The labelled output is
+judged by
+  (i)  the direct oracle of the statement (`oracle_unique`: one label per feature, labels unique
+       per frame, a label never reappears after more than `memory` missed frames), and
+  (ii) the predictor-independent monitor `stepCheckAny` (driver op `LANY`, Props/C11Any
+       acceptedAny_valid / acceptedAny_unique / labelAny_never_restarts) with `pred` instantiated
+       by the recorded predictions - exactly: every float is sent as `Fraction(float)`, the whole
+       movie scaled by the common denominator; the driver also reports whether the points the
+       predictor was asked about are exactly the monitor's candidate sources (`srcmatch`);
+  (iii) DriftPredict only: every recorded prediction is `pos + vel*(t - t_obs)` with the velocity in
+       force at that call, i.e. the monitor's `view` (each source over its own elapsed time).
+A failure of (i) is a property-violation; (ii)/(iii) failing while (i) holds is a correspondence-break.
 """
-import numpy as np
+import numpy as np  # noqa
 
 from . import common, linkcommon
 from .common import Result
@@ -20,11 +37,25 @@ RULE = ("C01 movie stream (integer lattice), drift velocities from {0, small, >>
         "frame numberings t0 + k*dt (dt in {1,2}), memory 0-3 with planted disappear/reappear "
         "histories, three strategies.  Non-trivial = the movie has a contested sub-net or a "
         "memory re-link AND v != 0 (drift stream) / a contested sub-net (null stream); distinct "
-        "= distinct canonical input.")
+        "= distinct canonical input.  Stateful stream: the same movies without empty frames, plain / "
+        "plus a uniform drift v*t / plus a shear u(y)*t, linked with NearestVelocityPredict (dim >= 2), "
+        "DriftPredict, ChannelPredict (dim 2) with span 1-3, with and without (exact, halved or "
+        "opposite) initial guesses, memory 0-3, through link_df_iter / wrap / link_df; non-trivial = "
+        "some recorded prediction differs from the observed position AND the movie has a memory "
+        "re-link or a link that is within range of the prediction only.")
 ASSUMPTIONS = [
     "integer positions and integer velocities: pos + v*t and the prediction are exact in float64",
     "partition equality is required when every step's optimum is unique; with ties both runs must "
     "be accepted by the monitor (equal cost)",
+    "stateful stream: recorded predictions are floats; they reach the monitor exactly (Fraction(float), "
+    "common denominator); a link whose exact squared distance to the recorded prediction exceeds the "
+    "squared range by a relative amount <= 1e-6 (trackpy queries with search_range + 1e-7) is counted "
+    "borderline and not judged",
+    "stateful stream: no empty frames (every stateful predictor of predict.py raises IndexError in "
+    "_compute_velocities on an empty frame) and NearestVelocityPredict only for dim >= 2 (scipy's "
+    "NearestNDInterpolator refuses 1-D data); DriftPredict raising `data must be finite` when two "
+    "consecutive frames share no trajectory (mean of no velocities = NaN) and SubnetOversizeException "
+    "end the movie: the labelled prefix is judged",
 ]
 MIN_NONTRIVIAL = 20
 
@@ -56,6 +87,8 @@ def gen_cases(ctx):
         mv["entry"] = "link_df_iter"
         mv["strategy"] = rng.choice(["recursive", "nonrecursive", None])
         yield mv
+    for i in range(ctx.n(260, 3000)):
+        yield gen_stateful(ctx.rng("stateful", i))
 
 
 def partition(levels):
@@ -85,6 +118,8 @@ def judge(ctx, res, inp, levels, vel, what):
 def run_case(ctx, inp):
     import trackpy as tp
     res = Result()
+    if inp["stream"] == "stateful":
+        return run_stateful_case(ctx, inp)
     if inp["stream"] == "null":
         a = linkcommon.run_impl(inp)
         b = linkcommon.run_impl(dict(inp, null_predict=True))
@@ -140,4 +175,348 @@ def run_case(ctx, inp):
             res.stat("tie_partition_differs")
     elif res.nontrivial and len(a) <= 4:
         res.sample = dict(input=inp, labels_plain=[l[2] for l in a], labels_drifted=[l[2] for l in b])
+    return res
+
+
+# ---------------------------------------------------------------------------------------------
+# stateful predictors (third clause: labels produced with ANY predictor remain unique per frame)
+
+COLS = {1: ["x"], 2: ["y", "x"], 3: ["z", "y", "x"]}
+PRED_CLASSES = {"near": "NearestVelocityPredict", "drift": "DriftPredict", "chan": "ChannelPredict"}
+
+
+def _guess_scaled(v, guess):
+    """the initial guess handed to the predictor: the true velocity, half of it (dyadic) or its
+    opposite"""
+    if guess == "half":
+        return [x / 2.0 for x in v]
+    if guess == "opposite":
+        return [-x for x in v]
+    return list(v)
+
+
+def gen_stateful(rng):
+    mv = linkcommon.gen_movie(rng, thorough=False, plant_history=True)
+    dim = mv["dim"]
+    base = [f for f in mv["frames"] if f]          # no empty frames (see ASSUMPTIONS)
+    if len(base) < 2:
+        base = base + [[[0] * dim, [1] * dim], [[1] * dim]][:2 - len(base)] if base else \
+            [[[0] * dim, [5] * dim], [[1] * dim, [5] * dim]]
+    R = max(1, int(max(mv["sr"]) / 4.0))           # search range in coordinate units
+    kind = rng.choice(["drift"] + (["near", "near"] if dim >= 2 else []) + (["chan", "chan"] if dim == 2 else []))
+    variant = rng.choice(["plain", "drift", "drift", "shear"] if dim >= 2 else ["plain", "drift", "drift"])
+    tstep = rng.choice([1, 1, 2])
+    vel = [0] * dim
+    shear = None
+    if variant == "drift":
+        mag = rng.choice([1, 2, R, 3 * R])
+        vel = [rng.randint(-mag, mag) for _ in range(dim)]
+    elif variant == "shear":
+        # the velocity along the last axis ('x') depends on the bin of the first axis ('y')
+        shear = dict(h=rng.choice([2, 3, 5]) * R, g=rng.choice([1, 2, R]))
+    frames = []
+    for k, pts in enumerate(base):
+        e = k * tstep
+        out = []
+        for p in pts:
+            q = [c + v * e for c, v in zip(p, vel)]
+            if shear:
+                q[-1] += shear["g"] * (p[0] // shear["h"]) * e
+            out.append(q)
+        frames.append(out)
+    guess = rng.choice(["none", "none", "exact", "exact", "half", "opposite"])
+    pk = dict(span=rng.choice([1, 1, 2, 3]))
+    pred_cols = rng.random() < 0.3                  # give the predictor its own pos_columns
+    if kind == "drift":
+        if guess != "none":
+            pk["initial_guess"] = _guess_scaled(vel if variant != "plain" else [1] * dim, guess)
+            pred_cols = True
+    elif kind == "near":
+        if guess != "none":
+            pts0 = [list(p) for p in frames[0][:6]]
+            if shear:
+                vels = [[0] * (dim - 1) + [shear["g"] * (p[0] // shear["h"])] for p in pts0]
+            else:
+                vels = [list(vel) if variant != "plain" else [1] * dim for _ in pts0]
+            pk["initial_guess_positions"] = pts0
+            pk["initial_guess_vels"] = [_guess_scaled(v, guess) for v in vels]
+            pred_cols = True
+    else:
+        flow = rng.choice(["x", "x", "x", "y"])
+        pk["flow_axis"] = flow
+        pk["minsamples"] = rng.choice([1, 1, 2, 3])
+        if shear:
+            pk["bin_size"] = rng.choice([shear["h"], shear["h"], shear["h"] / 2.0, 2.5 * R])
+        else:
+            pk["bin_size"] = rng.choice([R, 2 * R + 0.5, 5 * R])
+        if guess != "none":
+            if shear and flow == "x":
+                bins = sorted({p[0] // shear["h"] for p in frames[0]})
+                prof = [[b * shear["h"] + shear["h"] / 2.0, shear["g"] * b] for b in bins]
+            else:
+                prof = [[0, (vel[1] if flow == "x" else vel[0]) if variant != "plain" else 1]]
+            pk["initial_profile_guess"] = [[a, _guess_scaled([u], guess)[0]] for a, u in prof]
+    return dict(stream="stateful", dim=dim, frames=frames, t0=mv["t0"], tstep=tstep, sr=mv["sr"],
+                iso=mv["iso"], scale_pow=0, memory=mv["memory"], kind=kind, variant=variant,
+                vel=vel, shear=shear, guess=guess, pred_kwargs=pk, pred_cols=pred_cols,
+                strategy=rng.choice(["recursive", "nonrecursive", "numba", None]),
+                entry=rng.choice(["link_df_iter", "link_df_iter", "wrap", "link_df"]),
+                linker_cols=(dim == 1 or rng.random() < 0.7))
+
+
+def recording(cls):
+    """thin recording subclass: notes, at every call of `predict`, the frame number asked for, the
+    points asked about (track id, observation time, position) and the positions returned"""
+    import numpy as np
+
+    class Recording(cls):
+        def __init__(self, *a, **k):
+            super().__init__(*a, **k)
+            self.calls = []
+
+        def predict(self, t1, particles):
+            particles = list(particles)
+            asked = [(int(p.track.id), p.t, [float(c) for c in p.pos]) for p in particles]
+            vel = getattr(self, "vel", None)          # DriftPredict: the velocity in force
+            vel = None if vel is None else [float(x) for x in np.atleast_1d(vel)]
+            out = np.array(list(super().predict(t1, particles)), dtype=float)
+            self.calls.append((t1, asked, out.copy(), vel))
+            return out
+    Recording.__name__ = "Recording" + cls.__name__
+    return Recording
+
+
+def run_stateful(inp):
+    """-> (levels, calls, raised): levels = [(t, [[int pos]], [labels])] labelled so far,
+    calls = the recorded `predict` calls, raised = None or the name of what ended the movie"""
+    import pandas as pd
+    import trackpy as tp
+    from trackpy.linking.utils import SubnetOversizeException
+    dim = inp["dim"]
+    cols = COLS[dim]
+    cls = recording(getattr(tp.predict, PRED_CLASSES[inp["kind"]]))
+    pk = dict(inp["pred_kwargs"])
+    for k in ("initial_guess", "initial_guess_positions", "initial_guess_vels", "initial_profile_guess"):
+        if k in pk:
+            pk[k] = np.array(pk[k], dtype=float)
+    if inp.get("pred_cols"):
+        pk["pos_columns"] = list(cols)
+    if inp["kind"] == "chan":
+        pred = cls(pk.pop("bin_size"), **pk)
+    else:
+        pred = cls(**pk)
+    kw = dict(memory=inp["memory"])
+    if inp.get("strategy") is not None:
+        kw["link_strategy"] = inp["strategy"]
+    if inp.get("linker_cols", True):
+        kw["pos_columns"] = list(cols)
+    sr = linkcommon.search_range_arg(inp)
+    t0, ts = inp["t0"], inp.get("tstep", 1)
+    tables = []
+    for k, pts in enumerate(inp["frames"]):
+        df = pd.DataFrame(np.array(pts, dtype=float).reshape(len(pts), dim), columns=cols)
+        df["frame"] = t0 + k * ts
+        tables.append(df)
+    levels, raised = [], None
+
+    def level_of(df):
+        return (int(df["frame"].iloc[0]), [[int(round(v)) for v in row] for row in df[cols].values],
+                [int(i) for i in df["particle"].values])
+    try:
+        if inp["entry"] == "link_df":
+            out = pred.link_df(pd.concat(tables, ignore_index=True), sr, **kw)
+            for t in sorted(set(int(x) for x in out["frame"].values)):
+                levels.append(level_of(out[out["frame"] == t]))
+        else:
+            if inp["entry"] == "wrap":
+                gen = pred.wrap(tp.link_df_iter, iter(tables), sr, **kw)
+            else:
+                gen = pred.link_df_iter(iter(tables), sr, **kw)
+            for df in gen:
+                levels.append(level_of(df))
+    except SubnetOversizeException:
+        raised = "SubnetOversizeException"
+    except ValueError as e:
+        # DriftPredict: no trajectory shared by the frames the velocity is computed from -> the mean
+        # velocity is NaN -> the tree refuses the predicted coordinates
+        if inp["kind"] == "drift" and "finite" in str(e):
+            raised = "drift_velocity_nan"
+        else:
+            raise
+    if raised and inp["entry"] == "link_df":
+        levels = []          # link_df returns nothing when it raises
+    return levels, pred.calls, raised
+
+
+def oracle_unique(levels, memory):
+    """the statement itself on the labelled output: one label per feature, labels unique per frame,
+    a label never reappears after more than `memory` missed frames.  None = holds."""
+    last = {}
+    for k, (t, pts, labels) in enumerate(levels):
+        if len(labels) != len(pts):
+            return "frame %d (level %d): %d labels for %d features" % (t, k, len(labels), len(pts))
+        if any((not isinstance(l, int)) or l < 0 for l in labels):
+            return "frame %d (level %d): a label is not a non-negative integer" % (t, k)
+        if len(set(labels)) != len(labels):
+            return "frame %d (level %d): a label is used twice" % (t, k)
+        for l in labels:
+            if l in last and k - last[l] - 1 > memory:
+                return "frame %d (level %d): label %d reappears after %d missed frames (memory %d)" % (
+                    t, k, l, k - last[l] - 1, memory)
+        for l in labels:
+            last[l] = k
+    return None
+
+
+def lany_line(inp, levels, calls_by_t):
+    """the `LANY` request: everything multiplied by the common denominator D of the recorded
+    predictions (exact), B by D^2"""
+    from fractions import Fraction
+    from math import gcd
+    w, B = linkcommon.weights(inp["sr"])
+    D = 1
+    fr = {}
+    for t, pts, labels in levels[1:]:
+        c = calls_by_t.get(t)
+        if c is None:
+            continue
+        rows = []
+        for (track, tobs, pos), pr in zip(c[1], c[2]):
+            fp = [Fraction(x) for x in pos]
+            fq = [Fraction(float(x)) for x in pr]
+            for f in fp + fq:
+                D = D * f.denominator // gcd(D, f.denominator)
+            rows.append((track, int(tobs), fp, fq))
+        fr[t] = rows
+
+    def ints(fs):
+        return ",".join(str(int(f * D)) for f in fs)
+    parts = ["w=%s B=%d mem=%d" % (",".join(map(str, w)), B * D * D, inp["memory"])]
+    for t, pts, labels in levels:
+        cs = " ".join(",".join(str(int(c) * D) for c in p) for p in pts)
+        ps = " ".join("%d:%d:%s:%s" % (track, tobs, ints(fp), ints(fq)) for track, tobs, fp, fq in fr.get(t, []))
+        parts.append("t=%d | %s | %s | %s" % (t, cs, " ".join(str(l) for l in labels), ps))
+    return "LANY " + " ; ".join(parts), D, fr
+
+
+def link_margins(inp, levels, fr):
+    """exact look at every link that continues a recorded source: (#links, #links within range of
+    the prediction only, #links after a gap, smallest relative excess over the range or None)"""
+    from fractions import Fraction
+    w, B = linkcommon.weights(inp["sr"])
+    links = rescued = gaps = 0
+    worst = None
+    for t, pts, labels in levels[1:]:
+        rows = {track: (tobs, fp, fq) for track, tobs, fp, fq in fr.get(t, [])}
+        for q, l in zip(pts, labels):
+            if l not in rows:
+                continue
+            tobs, fp, fq = rows[l]
+            d_pred = sum(wi * (a - b) ** 2 for wi, a, b in zip(w, fq, q))
+            d_pos = sum(wi * (a - b) ** 2 for wi, a, b in zip(w, fp, q))
+            links += 1
+            if d_pos > B and d_pred <= B:
+                rescued += 1
+            if d_pred > B:
+                ex = Fraction(d_pred - B, B)
+                worst = ex if worst is None or ex < worst else worst
+    return links, rescued, worst
+
+
+def run_stateful_case(ctx, inp):
+    res = Result()
+    levels, calls, raised = run_stateful(inp)
+    name = PRED_CLASSES[inp["kind"]]
+    res.stat("stateful_cases")
+    res.stat("stateful_" + name)
+    res.stat("stateful_variant_" + inp["variant"])
+    res.stat("stateful_entry_" + inp["entry"])
+    res.stat("stateful_span_%d" % inp["pred_kwargs"]["span"])
+    res.stat("stateful_guess_" + inp["guess"])
+    res.stat("stateful_memory_%d" % inp["memory"])
+    if raised:
+        res.stat("stateful_ended_by_" + raised)
+    res.stat("stateful_levels", len(levels))
+    sig = dict(stream="stateful", predictor=name)
+    # (i) the statement itself
+    omsg = oracle_unique(levels, inp["memory"])
+    if omsg is not None:
+        res.violation("property-violation", "%s: %s" % (name, omsg), impl=levels,
+                      signature=dict(sig, what="labels-not-unique-or-restarted"))
+        return res
+    if len(levels) < 2:
+        return res
+    # (ii) the monitor, `pred` := the positions the real predictor returned in this run
+    calls_by_t = {}
+    for c in calls:
+        t1 = int(c[0])
+        if t1 in calls_by_t:
+            res.stat("stateful_predict_called_again")
+        calls_by_t[t1] = c
+    used_t = {t for t, _, _ in levels[1:]}
+    if any(not np.all(np.isfinite(c[2])) for t1, c in calls_by_t.items() if t1 in used_t):
+        res.stat("stateful_nonfinite_prediction")
+        return res
+    # DriftPredict is the monitor's `view` with the velocity in force at that call: every source
+    # (remembered ones included) is extrapolated over ITS OWN elapsed time
+    if inp["kind"] == "drift":
+        for t1 in sorted(used_t & set(calls_by_t)):
+            _, asked, out, vel = calls_by_t[t1]
+            if vel is None:
+                continue
+            res.stat("stateful_drift_law_calls")
+            for (track, tobs, pos), pr in zip(asked, out):
+                exp = [p + v * (t1 - tobs) for p, v in zip(pos, vel)]
+                if any(abs(a - b) > 1e-6 * (1.0 + abs(a)) for a, b in zip(exp, pr)):
+                    res.violation("correspondence-break",
+                                  "DriftPredict: prediction for track %d (observed at t=%s at %s) asked for "
+                                  "t=%s is %s, not pos + vel*(t - t_obs) = %s (vel %s)" % (
+                                      track, tobs, pos, t1, [float(x) for x in pr], exp, vel),
+                                  impl=dict(levels=levels), model=dict(expected=exp),
+                                  broken="Linker.view (pos + vel*(t - t_obs)) as the model of DriftPredict.predict",
+                                  signature=dict(sig, what="drift-law"))
+                    return res
+    line, D, fr = lany_line(inp, levels, calls_by_t)
+    links, rescued, worst = link_margins(inp, levels, fr)
+    moved = sum(1 for rows in fr.values() for _, _, fp, fq in rows if fp != fq)
+    res.stat("stateful_predictions", sum(len(r) for r in fr.values()))
+    res.stat("stateful_predictions_moved", moved)
+    res.stat("stateful_links", links)
+    res.stat("stateful_links_only_by_prediction", rescued)
+    if D > 1024:
+        res.stat("stateful_fraction_of_float_movies")
+    if worst is not None and worst <= 1e-6:
+        res.borderline = True      # within the 1e-7 slack of the range query: not judged
+        return res
+    m = common.kv(ctx.ask(line))
+    res.model_calls += 1
+    if "verdict" not in m:
+        raise RuntimeError("driver: %r on %s" % (m, line[:300]))
+    relinks = int(m.get("relinks", 0))
+    res.stat("relinks_after_gap", relinks)
+    if m["verdict"] != "ok":
+        reason = str(m.get("reason")).replace("_", " ")
+        res.violation("correspondence-break",
+                      "%s: monitor stepCheckAny rejects the labelled output at step %s (%s) with the "
+                      "recorded predictions, the oracle of the statement accepts it" % (name, m.get("step"), reason),
+                      impl=dict(levels=levels, predictions={t: [(a, b, [str(x) for x in c], [str(x) for x in d])
+                                                               for a, b, c, d in rows] for t, rows in fr.items()}),
+                      model=m, broken="LinkerAny.stepCheckAny with the recorded predictions",
+                      signature=dict(sig, what=reason))
+        return res
+    if m.get("srcmatch") != "1":
+        res.violation("correspondence-break",
+                      "%s: at step %s the predictor was not asked about exactly the monitor's candidate "
+                      "sources (previous level + points remembered for <= memory levels, each with its "
+                      "own observation time and position)" % (name, m.get("srcstep")),
+                      impl=dict(levels=levels, asked={t: [(a, b, [str(x) for x in c]) for a, b, c, d in rows]
+                                                      for t, rows in fr.items()}),
+                      model=m, broken="LinkerAny.statesAlong / nextState (candidate sources)",
+                      signature=dict(sig, what="sources-differ"))
+        return res
+    res.nontrivial = moved > 0 and (relinks > 0 or rescued > 0)
+    if res.nontrivial and len(levels) <= 3 and sum(len(l[1]) for l in levels) <= 8:
+        res.sample = dict(input=inp, labels=[l[2] for l in levels], monitor=m,
+                          predictions={str(t): [(a, b, [str(x) for x in d]) for a, b, c, d in rows]
+                                       for t, rows in fr.items()})
     return res
